@@ -45,7 +45,7 @@ def yEp (r : Rule) (p : Inst) (nti : Nat) (y : Nat) : List Inst :=
   posE (mkFillCtx r p nti) y (ylyCand (ylyCtxOf r p nti) y)
 
 /-- … the entries of the year's list that BYSETPOS chooses -/
-theorem mem_yEp_iff (r : Rule) (p : Inst) (nti : Nat) (hr : WfRule r) (hp : WfInst p) (hs : SeedOk r p)
+theorem mem_yEp_iff (r : Rule) (p : Inst) (nti : Nat) (hr : WfRule r) (hp : WfInst p)
     (hsup : YlySup r) (hy : 1901 ≤ p.y) (hf : r.freq = 1) (hsh : r.shift = 0) (hpos : r.pos ≠ [])
     (y : Nat) (hq : yReach r p y) (hy2 : y ≤ 2099) (z : Inst) :
     z ∈ yEp r p nti y ↔ z ∈ yE r p nti y ∧ SetposOk r p z := by
@@ -54,10 +54,10 @@ theorem mem_yEp_iff (r : Rule) (p : Inst) (nti : Nat) (hr : WfRule r) (hp : WfIn
   show (∃ i, (yE r p nti y)[i]? = some z ∧ PosSel r.pos i (yE r p nti y).length) ↔ _
   constructor
   · rintro ⟨i, hi, hs'⟩
-    exact ⟨List.mem_of_getElem? hi, (yE_setpos r p nti hr hp hs hsup hy hf hpos y hq hy2 z i hi).2 hs'⟩
+    exact ⟨List.mem_of_getElem? hi, (yE_setpos r p nti hr hp hsup hy hf hpos y hq hy2 z i hi).2 hs'⟩
   · rintro ⟨hz, hs'⟩
     obtain ⟨i, hi⟩ := List.getElem?_of_mem hz
-    exact ⟨i, hi, (yE_setpos r p nti hr hp hs hsup hy hf hpos y hq hy2 z i hi).1 hs'⟩
+    exact ⟨i, hi, (yE_setpos r p nti hr hp hsup hy hf hpos y hq hy2 z i hi).1 hs'⟩
 
 theorem ylyLoop_aLoop_pos (r : Rule) (p : Inst) (nti : Nat) (hsh : r.shift = 0) (fuel y : Nat) :
     Sim (ylyLoop (ylyCtxOf r p nti) fuel y 64 {})
@@ -69,16 +69,16 @@ theorem ylyLoop_aLoop_pos (r : Rule) (p : Inst) (nti : Nat) (hsh : r.shift = 0) 
     fuel y 64 {} {} (Sim.rfl' _)
   exact h
 
-theorem yEp_sub (r : Rule) (p : Inst) (nti : Nat) (hr : WfRule r) (hp : WfInst p) (hs : SeedOk r p)
+theorem yEp_sub (r : Rule) (p : Inst) (nti : Nat) (hr : WfRule r) (hp : WfInst p)
     (hsup : YlySup r) (hy : 1901 ≤ p.y) (hf : r.freq = 1) (hsh : r.shift = 0) (hpos : r.pos ≠ [])
     (y : Nat) (hq : yReach r p y) (hy2 : y ≤ 2099) :
     (yEp r p nti y).Pairwise (fun a b => ltP a b = true) ∧ ∀ z ∈ yEp r p nti y, z ∈ yE r p nti y := by
-  refine ⟨?_, fun z hz => ((mem_yEp_iff r p nti hr hp hs hsup hy hf hsh hpos y hq hy2 z).1 hz).1⟩
+  refine ⟨?_, fun z hz => ((mem_yEp_iff r p nti hr hp hsup hy hf hsh hpos y hq hy2 z).1 hz).1⟩
   exact posE_sorted r p nti hr hp y (by omega) _ (ylyCand_allVC r p nti hr hp y)
 
 /-- C01, soundness of the yearly filler with BYSETPOS (no SHIFT, no BYEASTER) -/
 theorem fillYly_sound_pos (r : Rule) (p : Inst) (n : Nat) (l : List Inst) (hr : WfRule r) (hp : WfInst p)
-    (hs : SeedOk r p) (_hn : n ≤ 64) (hy : 1901 ≤ p.y) (hsup : YlySup r) (hsh : r.shift = 0) (hf : r.freq = 1)
+    (_hn : n ≤ 64) (hy : 1901 ≤ p.y) (hsup : YlySup r) (hsh : r.shift = 0) (hf : r.freq = 1)
     (hpos : r.pos ≠ []) (h : fillYly r p n = some l) : ∀ x ∈ l, YearlyInst r p x ∧ SetposOk r p x := by
   intro x hx
   rcases fillYly_cases r p n l hr hp hsh h with ⟨_, e⟩ | ⟨nti, _, e⟩
@@ -88,16 +88,16 @@ theorem fillYly_sound_pos (r : Rule) (p : Inst) (n : Nat) (l : List Inst) (hr : 
     rw [(ylyLoop_aLoop_pos r p nti hsh (ylyFuel nti) p.y).1] at hx
     have H := loopHyp_sub (fun y : Nat => y) (yE r p nti) (yEp r p nti)
       (fun y => (y + r.inter) % u32) (yly_loopHyp r p nti hr hp hsup hy)
-      (fun y hq hy2 => yEp_sub r p nti hr hp hs hsup hy hf hsh hpos y hq hy2)
+      (fun y hq hy2 => yEp_sub r p nti hr hp hsup hy hf hsh hpos y hq hy2)
     rcases aLoop_mem (mkFillCtx r p nti) 64 _ _ _ H (ylyFuel nti) p.y 64 {}
       ⟨0, by simp⟩ x hx with h | ⟨q', r1, r2, r3, _⟩
     · cases h
-    · obtain ⟨m1, m2⟩ := (mem_yEp_iff r p nti hr hp hs hsup hy hf hsh hpos q' r1 r2 x).1 r3
-      exact ⟨yE_inst r p nti hr hp hs hsup hy q' r1 r2 x m1, m2⟩
+    · obtain ⟨m1, m2⟩ := (mem_yEp_iff r p nti hr hp hsup hy hf hsh hpos q' r1 r2 x).1 r3
+      exact ⟨yE_inst r p nti hr hp hsup hy q' r1 r2 x m1, m2⟩
 
 /-- C01, completeness of the yearly filler with BYSETPOS (no SHIFT, no BYEASTER) -/
 theorem fillYly_complete_pos (r : Rule) (p : Inst) (n : Nat) (l : List Inst) (hr : WfRule r) (hp : WfInst p)
-    (hs : SeedOk r p) (_hn : n ≤ 64) (hy : 1901 ≤ p.y) (hsup : YlySup r) (hsh : r.shift = 0) (hf : r.freq = 1)
+    (_hn : n ≤ 64) (hy : 1901 ≤ p.y) (hsup : YlySup r) (hsh : r.shift = 0) (hf : r.freq = 1)
     (hpos : r.pos ≠ []) (h : fillYly r p n = some l)
     (x : Inst) (hx : YearlyInst r p x) (hsp : SetposOk r p x) (hge : absOf p ≤ absOf x)
     (hle : ltP r.untl x = false) (hxy : x.y ≤ 2099) :
@@ -107,16 +107,16 @@ theorem fillYly_complete_pos (r : Rule) (p : Inst) (n : Nat) (l : List Inst) (hr
   rcases fillYly_cases r p n l hr hp hsh h with ⟨hc, e⟩ | ⟨nti, hc, e⟩
   · right; rw [e]; unfold capOf; rw [hc]; exact ⟨rfl, fun z hz => by cases hz⟩
   · have hsim := ylyLoop_aLoop_pos r p nti hsh (ylyFuel nti) p.y
-    have hsubAll := fun y hq hy2 => yEp_sub r p nti hr hp hs hsup hy hf hsh hpos y hq hy2
+    have hsubAll := fun y hq hy2 => yEp_sub r p nti hr hp hsup hy hf hsh hpos y hq hy2
     have H := loopHyp_sub (fun y : Nat => y) (yE r p nti) (yEp r p nti)
       (fun y => (y + r.inter) % u32) (yly_loopHyp r p nti hr hp hsup hy) hsubAll
-    have G0 := yly_targetHyp r p nti hr hp hs hsup hy
+    have G0 := yly_targetHyp r p nti hr hp hsup hy
     have G := targetHyp_sub (mkFillCtx r p nti) 64 (fun y : Nat => y) (yE r p nti) (yEp r p nti)
       (fun y => (y + r.inter) % u32) G0 (fun x => SetposOk r p x)
       (fun y hq hy2 => (hsubAll y hq hy2).2)
       (fun x y hx hQ hq he => by
         obtain ⟨y2, hm⟩ := G0.here x y hx hq he
-        exact (mem_yEp_iff r p nti hr hp hs hsup hy hf hsh hpos y hq y2 x).2 ⟨hm, hQ⟩)
+        exact (mem_yEp_iff r p nti hr hp hsup hy hf hsh hpos y hq y2 x).2 ⟨hm, hQ⟩)
       (fun x j hx hQ hj hjx => yly_periodic_pos r p hr hy hf x j hx hQ hj hjx)
     have hg0 : yG r p p.y = 0 := yG_of r p p.y 0 (by omega) (by simp)
     have hI : CInv (mkFillCtx r p nti) 64 (fun y : Nat => y) (yEp r p nti) (yReach r p) (yG r p)
@@ -146,21 +146,21 @@ theorem fillYly_complete_pos (r : Rule) (p : Inst) (n : Nat) (l : List Inst) (hr
 
 /-- C01, soundness of the yearly filler (no SHIFT, no BYEASTER), with or without BYSETPOS -/
 theorem fillYly_sound_all (r : Rule) (p : Inst) (n : Nat) (l : List Inst) (hr : WfRule r) (hp : WfInst p)
-    (hs : SeedOk r p) (hn : n ≤ 64) (hy : 1901 ≤ p.y) (hsup : YlySup r) (hsh : r.shift = 0)
+    (hn : n ≤ 64) (hy : 1901 ≤ p.y) (hsup : YlySup r) (hsh : r.shift = 0)
     (hf : r.pos ≠ [] → r.freq = 1) (h : fillYly r p n = some l) : ∀ x ∈ l, YearlyInst r p x ∧ SetposOk r p x := by
   by_cases hpos : r.pos = []
-  · exact fillYly_sound r p n l hr hp hs hn hy hsup hsh hpos h
-  · exact fillYly_sound_pos r p n l hr hp hs hn hy hsup hsh (hf hpos) hpos h
+  · exact fillYly_sound r p n l hr hp hn hy hsup hsh hpos h
+  · exact fillYly_sound_pos r p n l hr hp hn hy hsup hsh (hf hpos) hpos h
 
 /-- C01, completeness of the yearly filler (no SHIFT, no BYEASTER), with or without BYSETPOS -/
 theorem fillYly_complete_all (r : Rule) (p : Inst) (n : Nat) (l : List Inst) (hr : WfRule r) (hp : WfInst p)
-    (hs : SeedOk r p) (hn : n ≤ 64) (hy : 1901 ≤ p.y) (hsup : YlySup r) (hsh : r.shift = 0)
+    (hn : n ≤ 64) (hy : 1901 ≤ p.y) (hsup : YlySup r) (hsh : r.shift = 0)
     (hf : r.pos ≠ [] → r.freq = 1) (h : fillYly r p n = some l)
     (x : Inst) (hx : YearlyInst r p x) (hsp : SetposOk r p x) (hge : absOf p ≤ absOf x)
     (hle : ltP r.untl x = false) (hxy : x.y ≤ 2099) :
     x ∈ l ∨ (l.length = capOf r n ∧ ∀ z ∈ l, ltP z x = true) := by
   by_cases hpos : r.pos = []
-  · exact fillYly_complete r p n l hr hp hs hn hy hsup hsh hpos h x hx hge hle hxy
-  · exact fillYly_complete_pos r p n l hr hp hs hn hy hsup hsh (hf hpos) hpos h x hx hsp hge hle hxy
+  · exact fillYly_complete r p n l hr hp hn hy hsup hsh hpos h x hx hge hle hxy
+  · exact fillYly_complete_pos r p n l hr hp hn hy hsup hsh (hf hpos) hpos h x hx hsp hge hle hxy
 
 end Echse.Lemmas.RrYlyRfc
